@@ -24,6 +24,7 @@ RULE = (
     "3 (thorough): after every step every pool member equals its reference and the original operands "
     "are unchanged. state = pool of functions; transition = one persim operator call; non-trivial = "
     "operands with different breakpoints / different depth counts, or a history re-using a result."
+    " snap_pl / lc_approx / average_approx also on fresh compute=False sources."
 )
 ASSUMPTIONS = [
     "reference: exact rational PL arithmetic (oracles/plfun.py) for the exact class, numpy on the node values for the grid class",
